@@ -1,50 +1,867 @@
-// probe (temporary)
+//! C14 — socket transports deliver exactly what was sent.
+//!
+//! Two peers inside one process, on the real compio-net / compio-runtime / compio-driver (fusion
+//! build, driver chosen per case).  Case families (first word of the first line):
+//!
+//! * `open`   lockstep: one operation per line on a TCP / Unix stream / UDP / Unix datagram pair;
+//!            every receive is issued only after the bytes are known to be queued, so `(n, buffers,
+//!            address, flags)` of each call is determined and compared with the Lean result-mapping
+//!            model line by line.
+//! * `conc`   concurrent reader and writer tasks (both directions), sizes above the socket buffer,
+//!            mixed operation kinds; the receiver's byte stream is summarised as `len fnv eof`.
+//! * `accept` accept / `incoming` yields every connection exactly once, nothing leaks.
+//! * `rmo`    `RecvMsgMultiResult::new` + accessors of the real code on a crafted buffer.
+//! * `ms`     the `SubmitMultiStream` adapter driven by real kernel events (data, pool exhaustion,
+//!            shutdown, cancel) — token sequence compared with the Lean adapter model.
+//!
+//! Monitors (implementation only): `C14:stream-mismatch`, `C14:dgram-mismatch`, `C14:dgram-over-capacity`,
+//! `C14:accept-dup-or-missing`, `C14:eof-missing`, `C14:fd-leak`, `C14:zc-buffer-changed`, and the known
+//! findings `F140:poll-multi-empty-data`, `F141:recv-vectored-prefilled`.
+
+use std::{
+    cell::RefCell,
+    collections::VecDeque,
+    io,
+    mem::MaybeUninit,
+    num::NonZeroU16,
+    os::fd::{AsRawFd, FromRawFd, RawFd},
+    rc::Rc,
+    time::{Duration, Instant},
+};
+
+use compio_buf::{BufResult, IoBuf, IoBufMut, SetLen};
 use compio_driver::{DriverType, ProactorBuilder};
-use compio_net::UdpSocket;
+use compio_io::{
+    AsyncRead, AsyncReadManaged, AsyncReadMulti, AsyncWrite, AsyncWriteZerocopy,
+    ancillary::{AncillaryBuf, AsyncReadAncillary, AsyncWriteAncillary},
+};
+use compio_net::{TcpListener, TcpStream, UdpSocket, UnixListener, UnixStream};
 use compio_runtime::Runtime;
 use futures_util::StreamExt;
-use std::num::NonZeroU16;
+use hx_common::{Case, Exec, Rng, catch, hex, run_harness, unhex};
 
-fn rt(ring: bool) -> Runtime {
+// ---------------------------------------------------------------------------------------------
+// buffers of the generated shapes
+
+/// one member of a receive buffer: `v<cap>:<prefill>` = `Vec` with content and capacity,
+/// `a<len>` = fixed slice (`Box<[u8]>`, `len == cap`) filled with 0xee
+enum Mem {
+    V(Vec<u8>),
+    A(Box<[u8]>),
+}
+
+impl IoBuf for Mem {
+    fn as_init(&self) -> &[u8] {
+        match self {
+            Mem::V(v) => v.as_init(),
+            Mem::A(a) => a.as_init(),
+        }
+    }
+}
+
+impl SetLen for Mem {
+    unsafe fn set_len(&mut self, len: usize) {
+        match self {
+            Mem::V(v) => unsafe { SetLen::set_len(v, len) },
+            Mem::A(a) => unsafe { SetLen::set_len(a, len) },
+        }
+    }
+}
+
+impl IoBufMut for Mem {
+    fn as_uninit(&mut self) -> &mut [MaybeUninit<u8>] {
+        match self {
+            Mem::V(v) => v.as_uninit(),
+            Mem::A(a) => a.as_uninit(),
+        }
+    }
+}
+
+impl Mem {
+    fn vis(&self) -> &[u8] {
+        match self {
+            Mem::V(v) => v.as_slice(),
+            Mem::A(a) => a,
+        }
+    }
+    fn capn(&self) -> usize {
+        match self {
+            Mem::V(v) => v.capacity(),
+            Mem::A(a) => a.len(),
+        }
+    }
+}
+
+fn parse_shape(s: &str) -> Mem {
+    if let Some(rest) = s.strip_prefix('v') {
+        let (cap, pre) = rest.split_once(':').expect("shape v<cap>:<hex>");
+        let cap: usize = cap.parse().expect("cap");
+        let pre = unhex(pre);
+        assert!(pre.len() <= cap);
+        let mut v = Vec::with_capacity(cap);
+        assert_eq!(v.capacity(), cap, "allocator gave a different capacity");
+        v.extend_from_slice(&pre);
+        Mem::V(v)
+    } else if let Some(rest) = s.strip_prefix('a') {
+        let n: usize = rest.parse().expect("len");
+        Mem::A(vec![0xee; n].into_boxed_slice())
+    } else {
+        panic!("bad shape {s}")
+    }
+}
+
+fn parse_shapes(s: &str) -> Vec<Mem> {
+    s.split(';').map(parse_shape).collect()
+}
+
+fn show_mems(ms: &[Mem]) -> String {
+    ms.iter().map(|m| hex(m.vis())).collect::<Vec<_>>().join(",")
+}
+
+fn caps(ms: &[Mem]) -> Vec<usize> {
+    ms.iter().map(|m| m.capn()).collect()
+}
+
+fn parse_chunks(s: &str) -> Vec<Vec<u8>> {
+    s.split(',').map(unhex).collect()
+}
+
+// ---------------------------------------------------------------------------------------------
+// runtime / sockets
+
+fn build_rt(drv: &str, nbufs: u16, buflen: usize) -> Runtime {
     let mut pb = ProactorBuilder::new();
-    pb.driver_type(if ring { DriverType::IoUring } else { DriverType::Poll })
-        .buffer_pool_size(NonZeroU16::new(4).unwrap())
-        .buffer_pool_buffer_len(512);
-    Runtime::builder().with_proactor(pb).build().unwrap()
+    pb.driver_type(if drv == "uring" { DriverType::IoUring } else { DriverType::Poll })
+        .capacity(256)
+        .buffer_pool_size(NonZeroU16::new(nbufs).expect("pool size"))
+        .buffer_pool_buffer_len(buflen);
+    let rt = Runtime::builder().with_proactor(pb).build().expect("runtime");
+    assert_eq!(rt.driver_type().is_iouring(), drv == "uring", "requested driver not available");
+    rt
+}
+
+fn inq(fd: RawFd) -> usize {
+    let mut n: libc::c_int = 0;
+    unsafe { libc::ioctl(fd, libc::FIONREAD, &mut n) };
+    n.max(0) as usize
+}
+
+fn readable(fd: RawFd, ms: i32) -> bool {
+    let mut p = libc::pollfd { fd, events: libc::POLLIN, revents: 0 };
+    unsafe { libc::poll(&mut p, 1, ms) > 0 }
+}
+
+fn wait_inq(fd: RawFd, want: usize) -> bool {
+    let t0 = Instant::now();
+    while inq(fd) < want {
+        if t0.elapsed() > Duration::from_secs(3) {
+            return false;
+        }
+        std::thread::sleep(Duration::from_micros(20));
+    }
+    true
+}
+
+fn open_fds() -> usize {
+    std::fs::read_dir("/proc/self/fd").map(|d| d.count()).unwrap_or(0)
+}
+
+thread_local! {
+    static SOCK_CTR: RefCell<u64> = const { RefCell::new(0) };
+}
+
+fn sock_path() -> String {
+    let n = SOCK_CTR.with(|c| {
+        *c.borrow_mut() += 1;
+        *c.borrow()
+    });
+    format!("/tmp/c14-{}-{}.sock", std::process::id(), n)
+}
+
+enum S {
+    Tcp(TcpStream),
+    Unix(UnixStream),
+}
+
+macro_rules! on {
+    ($s:expr, $x:ident => $body:expr) => {
+        match $s {
+            S::Tcp($x) => $body,
+            S::Unix($x) => $body,
+        }
+    };
+}
+
+impl S {
+    fn fd(&self) -> RawFd {
+        on!(self, s => s.as_raw_fd())
+    }
+}
+
+async fn stream_pair(tp: &str) -> (S, S) {
+    match tp {
+        "tcp" => {
+            let l = TcpListener::bind("127.0.0.1:0").await.expect("bind");
+            let addr = l.local_addr().unwrap();
+            let (a, b) = futures_util::join!(TcpStream::connect(addr), l.accept());
+            let a = a.expect("connect");
+            let b = b.expect("accept").0;
+            a.set_nodelay(true).ok();
+            b.set_nodelay(true).ok();
+            (S::Tcp(a), S::Tcp(b))
+        }
+        "unix" => {
+            let path = sock_path();
+            let l = UnixListener::bind(&path).await.expect("bind unix");
+            let (a, b) = futures_util::join!(UnixStream::connect(&path), l.accept());
+            let _ = std::fs::remove_file(&path);
+            (S::Unix(a.expect("connect")), S::Unix(b.expect("accept").0))
+        }
+        _ => panic!("bad stream transport {tp}"),
+    }
+}
+
+/// a peer of a stream connection: whole, or split into owned halves (`into_split`)
+enum Peer {
+    Whole(S),
+    Split(S, S),
+    Gone,
+}
+
+impl Peer {
+    fn r(&self) -> &S {
+        match self {
+            Peer::Whole(s) => s,
+            Peer::Split(r, _) => r,
+            Peer::Gone => unreachable!(),
+        }
+    }
+    fn w(&self) -> &S {
+        match self {
+            Peer::Whole(s) => s,
+            Peer::Split(_, w) => w,
+            Peer::Gone => unreachable!(),
+        }
+    }
+    fn split(&mut self) {
+        let me = std::mem::replace(self, Peer::Gone);
+        *self = match me {
+            Peer::Whole(S::Tcp(s)) => {
+                let (r, w) = s.into_split();
+                Peer::Split(S::Tcp(r), S::Tcp(w))
+            }
+            Peer::Whole(S::Unix(s)) => {
+                let (r, w) = s.into_split();
+                Peer::Split(S::Unix(r), S::Unix(w))
+            }
+            other => other,
+        };
+    }
+}
+
+// ---------------------------------------------------------------------------------------------
+// stream operations (all kinds), used by the lockstep and the concurrent cases
+
+#[derive(Default)]
+struct Caps {
+    zc_unsupported: bool,
+}
+
+fn is_unsupported(e: &io::Error) -> bool {
+    matches!(e.raw_os_error(), Some(libc::EINVAL) | Some(libc::EOPNOTSUPP) | Some(libc::ENOSYS))
+        || e.kind() == io::ErrorKind::Unsupported
+}
+
+/// send all of `chunks` with operation kind `kind`, looping over partial writes; returns bytes sent
+async fn send_all(w: &S, kind: &str, chunks: Vec<Vec<u8>>, ex: &RefCell<Exec>, caps: &RefCell<Caps>) -> io::Result<usize> {
+    let total: usize = chunks.iter().map(|c| c.len()).sum();
+    let mut rest: VecDeque<Vec<u8>> = chunks.into();
+    let mut sent = 0usize;
+    let mut kind = kind.to_string();
+    let mut first = true;
+    while sent < total || first {
+        first = false;
+        let vectored = matches!(kind.as_str(), "vec" | "zcvec" | "msgvec");
+        let n = if vectored {
+            let bufs: Vec<Vec<u8>> = rest.iter().cloned().collect();
+            let copy = bufs.clone();
+            match kind.as_str() {
+                "vec" => on!(w, s => { let mut s = s; s.write_vectored(bufs).await.0 })?,
+                "msgvec" => on!(w, s => { let mut s = s; s.write_vectored_with_ancillary(bufs, Vec::<u8>::new()).await.0 })?,
+                "zcvec" => {
+                    let BufResult(res, fut) = on!(w, s => { let mut s = s; s.write_zerocopy_vectored(bufs).await });
+                    let back = fut.await;
+                    if back != copy {
+                        ex.borrow_mut().fail("C14:zc-buffer-changed", "vectored zero-copy send returned a different buffer");
+                    }
+                    match res {
+                        Ok(n) => n,
+                        Err(e) if is_unsupported(&e) => {
+                            caps.borrow_mut().zc_unsupported = true;
+                            kind = "vec".into();
+                            first = true;
+                            continue;
+                        }
+                        Err(e) => return Err(e),
+                    }
+                }
+                _ => unreachable!(),
+            }
+        } else {
+            let buf = rest.front().cloned().unwrap_or_default();
+            let copy = buf.clone();
+            match kind.as_str() {
+                "plain" => on!(w, s => { let mut s = s; s.write(buf).await.0 })?,
+                "msg" => on!(w, s => { let mut s = s; s.write_with_ancillary(buf, Vec::<u8>::new()).await.0 })?,
+                "half" => match w {
+                    S::Tcp(s) => {
+                        let (_r, mut h) = compio_io::util::Splittable::split(s);
+                        h.write(buf).await.0?
+                    }
+                    S::Unix(s) => {
+                        let (_r, mut h) = compio_io::util::Splittable::split(s);
+                        h.write(buf).await.0?
+                    }
+                },
+                "zc" => {
+                    let BufResult(res, fut) = on!(w, s => { let mut s = s; s.write_zerocopy(buf).await });
+                    let back = fut.await;
+                    if back != copy {
+                        ex.borrow_mut().fail("C14:zc-buffer-changed", "zero-copy send returned a different buffer");
+                    }
+                    match res {
+                        Ok(n) => n,
+                        Err(e) if is_unsupported(&e) => {
+                            caps.borrow_mut().zc_unsupported = true;
+                            kind = "plain".into();
+                            first = true;
+                            continue;
+                        }
+                        Err(e) => return Err(e),
+                    }
+                }
+                other => panic!("bad send kind {other}"),
+            }
+        };
+        // drop the `n` bytes that went out from the front of `rest`
+        let mut k = n;
+        if !vectored {
+            let f = rest.front_mut();
+            if let Some(f) = f {
+                assert!(k <= f.len(), "send reported more than submitted");
+                if k == f.len() {
+                    rest.pop_front();
+                } else {
+                    f.drain(..k);
+                    ex.borrow_mut().tag("partial-send");
+                }
+            }
+        } else {
+            let avail: usize = rest.iter().map(|c| c.len()).sum();
+            assert!(k <= avail, "vectored send reported more than submitted");
+            if k < avail {
+                ex.borrow_mut().tag("partial-send");
+            }
+            while k > 0 || rest.front().is_some_and(|f| f.is_empty()) {
+                let f = rest.front_mut().unwrap();
+                if k >= f.len() {
+                    k -= f.len();
+                    rest.pop_front();
+                } else {
+                    f.drain(..k);
+                    k = 0;
+                }
+            }
+            if k == 0 && n == avail {
+                rest.clear();
+            }
+        }
+        sent += n;
+        if n == 0 && sent < total {
+            return Err(io::Error::new(io::ErrorKind::WriteZero, "send returned 0"));
+        }
+        if !vectored && rest.is_empty() {
+            break;
+        }
+    }
+    Ok(sent)
+}
+
+/// result of one stream receive: (n, members shown, ctl length if the call reports it)
+struct RecvOut {
+    n: usize,
+    mems: Vec<Mem>,
+    extra: String,
+}
+
+async fn recv_once(r: &S, kind: &str, mut mems: Vec<Mem>) -> io::Result<RecvOut> {
+    match kind {
+        "plain" | "half" | "msg" => {
+            assert_eq!(mems.len(), 1);
+            let m = mems.pop().unwrap();
+            match kind {
+                "plain" => {
+                    let BufResult(res, m) = on!(r, s => { let mut s = s; s.read(m).await });
+                    Ok(RecvOut { n: res?, mems: vec![m], extra: String::new() })
+                }
+                "half" => {
+                    let BufResult(res, m) = match r {
+                        S::Tcp(s) => {
+                            let (mut h, _w) = compio_io::util::Splittable::split(s);
+                            h.read(m).await
+                        }
+                        S::Unix(s) => {
+                            let (mut h, _w) = compio_io::util::Splittable::split(s);
+                            h.read(m).await
+                        }
+                    };
+                    Ok(RecvOut { n: res?, mems: vec![m], extra: String::new() })
+                }
+                _ => {
+                    let BufResult(res, (m, ctl)) =
+                        on!(r, s => { let mut s = s; s.read_with_ancillary(m, AncillaryBuf::<64>::new()).await });
+                    let (n, clen, flags) = res?;
+                    Ok(RecvOut { n, mems: vec![m], extra: format!(" ctl={}:{} flags={}", clen, ctl.as_init().len(), flag_str(flags.bits() as u32)) })
+                }
+            }
+        }
+        "vec" => {
+            let BufResult(res, mems) = on!(r, s => { let mut s = s; s.read_vectored(mems).await });
+            Ok(RecvOut { n: res?, mems, extra: String::new() })
+        }
+        "msgvec" => {
+            let BufResult(res, (mems, ctl)) =
+                on!(r, s => { let mut s = s; s.read_vectored_with_ancillary(mems, AncillaryBuf::<64>::new()).await });
+            let (n, clen, flags) = res?;
+            Ok(RecvOut { n, mems, extra: format!(" ctl={}:{} flags={}", clen, ctl.as_init().len(), flag_str(flags.bits() as u32)) })
+        }
+        other => panic!("bad recv kind {other}"),
+    }
+}
+
+const MSG_TRUNC: u32 = libc::MSG_TRUNC as u32;
+const MSG_CTRUNC: u32 = libc::MSG_CTRUNC as u32;
+
+fn flag_str(bits: u32) -> String {
+    let mut s = String::new();
+    if bits & MSG_TRUNC != 0 {
+        s.push('t');
+    }
+    if bits & MSG_CTRUNC != 0 {
+        s.push('c');
+    }
+    if s.is_empty() {
+        s.push('-');
+    }
+    s
+}
+
+// ---------------------------------------------------------------------------------------------
+// lockstep cases
+
+struct StreamWorld {
+    peers: [Peer; 2],
+    /// bytes sent on direction d (0: a->b, 1: b->a) and not yet received, with their content
+    queue: [VecDeque<u8>; 2],
+    shut: [bool; 2],
+}
+
+fn pidx(p: &str) -> usize {
+    match p {
+        "a" => 0,
+        "b" => 1,
+        _ => panic!("bad peer {p}"),
+    }
+}
+
+fn err_str(e: &io::Error) -> String {
+    match e.raw_os_error() {
+        Some(libc::EMSGSIZE) => "err:msgsize".into(),
+        Some(libc::EPIPE) => "err:pipe".into(),
+        Some(libc::ECONNRESET) => "err:reset".into(),
+        Some(libc::ECANCELED) => "err:cancelled".into(),
+        Some(libc::ENOBUFS) => "err:busy".into(),
+        _ => match e.kind() {
+            io::ErrorKind::ResourceBusy => "err:busy".into(),
+            io::ErrorKind::TimedOut => "err:timeout".into(),
+            k => format!("err:{k:?}"),
+        },
+    }
+}
+
+/// the receiver-side oracle of a lockstep stream receive: the first `n` bytes seen by the caller are
+/// the next `n` bytes of what the other peer sent, in the positions the kernel filled
+fn check_stream_recv(ex: &RefCell<Exec>, line: &str, n: usize, mems: &mut [Mem], capv: &[usize], q: &mut VecDeque<u8>, prefilled_gap: bool) {
+    let expect: Vec<u8> = q.iter().take(n).copied().collect();
+    if expect.len() < n {
+        ex.borrow_mut().fail("C14:stream-mismatch", format!("{line}: received {n} bytes but only {} were in flight", expect.len()));
+        q.clear();
+        return;
+    }
+    // walk the members the way the kernel filled them
+    let mut off = 0usize;
+    let mut ok = true;
+    for (m, cap) in mems.iter().zip(capv) {
+        if off >= n {
+            break;
+        }
+        let k = (*cap).min(n - off);
+        let vis = m.vis();
+        if vis.len() < k || vis[..k] != expect[off..off + k] {
+            ok = false;
+        }
+        off += k;
+    }
+    if off < n {
+        ok = false;
+    }
+    if !ok {
+        let sig = if prefilled_gap { "F141:recv-vectored-prefilled" } else { "C14:stream-mismatch" };
+        ex.borrow_mut().fail(sig, format!("{line}: n={n} caller sees [{}], sender submitted {}", show_mems(mems), hex(&expect)));
+    }
+    q.drain(..n);
+}
+
+/// does the vectored shape have a member with spare capacity (len < cap) that is not empty-and-first-touched
+/// in the way `advance_vec_to` needs?  (only used to pick the monitor signature)
+fn has_prefilled_gap(mems: &[Mem]) -> bool {
+    let lens: Vec<(usize, usize)> = mems.iter().map(|m| (m.vis().len(), m.capn())).collect();
+    lens.iter().any(|(l, c)| *l > 0 && l < c) || lens.windows(2).any(|w| w[0].0 < w[0].1 && w[1].0 > 0)
+}
+
+/// pull from a `read_multi` stream until `pending` bytes arrived, the stream ended, or a hard error
+async fn drain_multi<R: AsyncReadMulti + AsyncReadManaged<Buffer = compio_driver::BufferRef>>(
+    r: &mut R,
+    len: usize,
+    pending: usize,
+    ex: &RefCell<Exec>,
+) -> (Vec<u8>, bool, Option<String>) {
+    let mut got: Vec<u8> = vec![];
+    let mut ended = false;
+    let mut errs = 0;
+    let mut last_err = None;
+    let mut s = std::pin::pin!(r.read_multi(len));
+    while got.len() < pending || (pending == 0 && !ended) {
+        match compio_runtime::time::timeout(Duration::from_secs(3), s.next()).await {
+            Err(_) => {
+                last_err = Some("err:timeout".to_string());
+                break;
+            }
+            Ok(None) => {
+                ended = true;
+                break;
+            }
+            Ok(Some(Ok(buf))) => got.extend_from_slice(&buf),
+            Ok(Some(Err(e))) => {
+                errs += 1;
+                if e.kind() != io::ErrorKind::ResourceBusy || errs > 64 {
+                    last_err = Some(err_str(&e));
+                    break;
+                }
+                ex.borrow_mut().tag("multi-enobufs");
+            }
+        }
+    }
+    (got, ended, last_err)
+}
+
+async fn lock_stream(case: &Case, tp: &str, ex: &RefCell<Exec>, caps: &RefCell<Caps>) -> Vec<String> {
+    let (a, b) = stream_pair(tp).await;
+    let mut w = StreamWorld { peers: [Peer::Whole(a), Peer::Whole(b)], queue: [VecDeque::new(), VecDeque::new()], shut: [false, false] };
+    let mut out = vec!["ok".to_string()];
+    for line in &case.lines[1..] {
+        let f: Vec<&str> = line.split_whitespace().collect();
+        let o = match f[0] {
+            "split" => {
+                w.peers[pidx(f[1])].split();
+                ex.borrow_mut().tag("owned-split");
+                "ok".to_string()
+            }
+            "send" => {
+                let p = pidx(f[1]);
+                let chunks = parse_chunks(f[3]);
+                let flat: Vec<u8> = chunks.concat();
+                ex.borrow_mut().tag(format!("send-{}", f[2]));
+                match send_all(w.peers[p].w(), f[2], chunks, ex, caps).await {
+                    Ok(n) => {
+                        w.queue[p].extend(flat.iter().copied());
+                        format!("sent {n}")
+                    }
+                    Err(e) => err_str(&e),
+                }
+            }
+            "shutdown" => {
+                let p = pidx(f[1]);
+                let r = on!(w.peers[p].w(), s => { let mut s = s; s.shutdown().await });
+                w.shut[p] = true;
+                match r {
+                    Ok(()) => "ok".into(),
+                    Err(e) => err_str(&e),
+                }
+            }
+            "recv" => {
+                let p = pidx(f[1]);
+                let d = 1 - p; // direction feeding this peer
+                let pending = w.queue[d].len();
+                if pending == 0 && !w.shut[d] {
+                    "idle".to_string()
+                } else {
+                    let fd = w.peers[p].r().fd();
+                    if !wait_inq(fd, pending) {
+                        ex.borrow_mut().fail("C14:stream-mismatch", format!("{line}: {pending} bytes sent but only {} arrived", inq(fd)));
+                    }
+                    let mut mems = parse_shapes(f[3]);
+                    let gap = f[2].contains("vec") && has_prefilled_gap(&mems);
+                    let capv = caps(&mems);
+                    ex.borrow_mut().tag(format!("recv-{}", f[2]));
+                    match recv_once(w.peers[p].r(), f[2], mems).await {
+                        Ok(mut r) => {
+                            if r.n == 0 && capv.iter().sum::<usize>() > 0 {
+                                if pending > 0 || !w.shut[d] {
+                                    ex.borrow_mut().fail("C14:stream-mismatch", format!("{line}: end of stream with {pending} bytes in flight"));
+                                }
+                                ex.borrow_mut().tag("eof");
+                            } else if pending == 0 && capv.iter().sum::<usize>() > 0 {
+                                ex.borrow_mut().fail("C14:eof-missing", format!("{line}: {} bytes after shutdown", r.n));
+                            }
+                            check_stream_recv(ex, line, r.n, &mut r.mems, &capv, &mut w.queue[d], gap);
+                            format!("n={} {}{}", r.n, show_mems(&r.mems), r.extra)
+                        }
+                        Err(e) => err_str(&e),
+                    }
+                }
+            }
+            "recvm" => {
+                let p = pidx(f[1]);
+                let d = 1 - p;
+                let pending = w.queue[d].len();
+                if pending == 0 && !w.shut[d] {
+                    "idle".to_string()
+                } else {
+                    let fd = w.peers[p].r().fd();
+                    wait_inq(fd, pending);
+                    let len: usize = f[2].parse().unwrap();
+                    ex.borrow_mut().tag("recv-managed");
+                    let r = on!(w.peers[p].r(), s => { let mut s = s; s.read_managed(len).await });
+                    match r {
+                        Ok(Some(buf)) => {
+                            let got = buf.to_vec();
+                            let exp: Vec<u8> = w.queue[d].iter().take(got.len()).copied().collect();
+                            if exp != got {
+                                ex.borrow_mut().fail("C14:stream-mismatch", format!("{line}: managed buffer {} but sender submitted {}", hex(&got), hex(&exp)));
+                            }
+                            let k = got.len().min(w.queue[d].len());
+                            w.queue[d].drain(..k);
+                            format!("some {}", hex(&got))
+                        }
+                        Ok(None) => {
+                            if pending > 0 {
+                                ex.borrow_mut().fail("C14:stream-mismatch", format!("{line}: Ok(None) with {pending} bytes in flight"));
+                            }
+                            ex.borrow_mut().tag("eof");
+                            "none".into()
+                        }
+                        Err(e) => err_str(&e),
+                    }
+                }
+            }
+            "mrecv" => {
+                let p = pidx(f[1]);
+                let d = 1 - p;
+                let pending = w.queue[d].len();
+                if pending == 0 && !w.shut[d] {
+                    "idle".to_string()
+                } else {
+                    let len: usize = f[2].parse().unwrap();
+                    ex.borrow_mut().tag("recv-multi");
+                    let (got, ended, last_err) = on!(w.peers[p].r(), s => { let mut s = s; drain_multi(&mut s, len, pending, ex).await });
+                    let exp: Vec<u8> = w.queue[d].iter().take(got.len()).copied().collect();
+                    if exp != got || (got.len() < pending && last_err.is_none()) {
+                        ex.borrow_mut().fail("C14:stream-mismatch", format!("{line}: multishot stream delivered {} of {pending} bytes: {} vs {}", got.len(), hex(&got), hex(&exp)));
+                    }
+                    if pending == 0 && !ended && last_err.is_none() {
+                        ex.borrow_mut().fail("C14:eof-missing", format!("{line}: multishot stream did not end after shutdown"));
+                    }
+                    let k = got.len().min(w.queue[d].len());
+                    w.queue[d].drain(..k);
+                    match last_err {
+                        Some(e) => e,
+                        None => format!("{}{}", hex(&got), if ended { " eof" } else { "" }),
+                    }
+                }
+            }
+            other => panic!("bad lockstep stream op {other}"),
+        };
+        out.push(o);
+    }
+    out
+}
+
+fn exec(case: &Case) -> Exec {
+    let ex = RefCell::new(Exec::new());
+    let caps = RefCell::new(Caps::default());
+    let first: Vec<&str> = case.lines[0].split_whitespace().collect();
+    let out = match first[0] {
+        "open" => {
+            let (tp, drv) = (first[1], first[2]);
+            let nbufs: u16 = first[3].parse().unwrap();
+            let buflen: usize = first[4].parse().unwrap();
+            ex.borrow_mut().tag(format!("lock-{tp}-{drv}"));
+            let rt = build_rt(drv, nbufs, buflen);
+            let r = catch(|| {
+                rt.block_on(async {
+                    match tp {
+                        "tcp" | "unix" => lock_stream(case, tp, &ex, &caps).await,
+                        _ => panic!("bad transport {tp}"),
+                    }
+                })
+            });
+            match r {
+                Ok(o) => o,
+                Err(p) => {
+                    ex.borrow_mut().fail("C14:panic", format!("panic: {p}"));
+                    vec![format!("panic"); case.lines.len()]
+                }
+            }
+        }
+        other => panic!("bad case family {other}"),
+    };
+    if caps.borrow().zc_unsupported {
+        ex.borrow_mut().tag("zerocopy-unsupported");
+    }
+    let mut ex = ex.into_inner();
+    ex.nontrivial = out.iter().any(|o| o.starts_with("n=") || o.starts_with("some") || o.contains(' '));
+    ex.out = out;
+    ex
+}
+
+// ---------------------------------------------------------------------------------------------
+// generators
+
+fn gen_bytes(rng: &mut Rng, n: usize) -> Vec<u8> {
+    rng.bytes(n)
+}
+
+fn gen_chunks(rng: &mut Rng, vectored: bool, max: usize) -> String {
+    if vectored {
+        let k = rng.range(1, 4) as usize;
+        (0..k)
+            .map(|_| {
+                let n = if rng.chance(1, 6) { 0 } else { rng.range(1, max as u64 / k as u64 + 1) as usize };
+                hex(&gen_bytes(rng, n))
+            })
+            .collect::<Vec<_>>()
+            .join(",")
+    } else {
+        let n = match rng.below(8) {
+            0 => 0,
+            1 => 1,
+            _ => rng.range(1, max as u64) as usize,
+        };
+        hex(&gen_bytes(rng, n))
+    }
+}
+
+fn gen_shape(rng: &mut Rng, max: usize, allow_prefill: bool) -> String {
+    let cap = match rng.below(8) {
+        0 => 0,
+        1 => 1,
+        _ => rng.range(1, max as u64) as usize,
+    };
+    match rng.below(4) {
+        0 => format!("a{cap}"),
+        1 if allow_prefill && cap > 0 => {
+            let p = rng.range(0, cap as u64) as usize;
+            format!("v{cap}:{}", hex(&gen_bytes(rng, p)))
+        }
+        _ => format!("v{cap}:-"),
+    }
+}
+
+fn gen_lock_stream(rng: &mut Rng, idx: usize, tp: &str, drv: &str) -> Case {
+    let nbufs = *rng.pick(&[1u16, 2, 4, 8]);
+    let buflen = *rng.pick(&[16usize, 64, 256, 4096]);
+    let mut lines = vec![format!("open {tp} {drv} {nbufs} {buflen}")];
+    let nops = rng.range(3, 14);
+    let mut pend = [0usize; 2];
+    let mut shut = [false; 2];
+    for _ in 0..nops {
+        let p = rng.below(2) as usize;
+        let pn = ["a", "b"][p];
+        match rng.below(12) {
+            0..=4 if !shut[p] && pend[p] < 20000 => {
+                let kind = *rng.pick(&["plain", "plain", "vec", "zc", "zcvec", "msg", "msgvec", "half"]);
+                let max = *rng.pick(&[8usize, 64, 600, 9000]);
+                let ch = gen_chunks(rng, kind.contains("vec"), max);
+                pend[p] += ch.split(',').map(|h| if h == "-" { 0 } else { h.len() / 2 }).sum::<usize>();
+                lines.push(format!("send {pn} {kind} {ch}"));
+            }
+            5 if !shut[p] && rng.chance(1, 3) => {
+                shut[p] = true;
+                lines.push(format!("shutdown {pn}"));
+            }
+            6 if rng.chance(1, 3) => lines.push(format!("split {pn}")),
+            7 => {
+                let len = *rng.pick(&[0usize, 0, 5, 100, 100000]);
+                lines.push(format!("recvm {pn} {len}"));
+                let d = 1 - p;
+                pend[d] = pend[d].saturating_sub(if len == 0 { buflen } else { len.min(buflen) });
+            }
+            8 => {
+                let len = *rng.pick(&[0usize, 0, 7, 100000]);
+                lines.push(format!("mrecv {pn} {len}"));
+                pend[1 - p] = 0;
+            }
+            _ => {
+                let kind = *rng.pick(&["plain", "plain", "vec", "vec", "half", "msg", "msgvec"]);
+                let max = *rng.pick(&[4usize, 32, 300, 5000]);
+                let shapes = if kind.contains("vec") {
+                    let k = rng.range(1, 4);
+                    // members are fresh vectors or full arrays; a pre-filled member with spare room
+                    // (finding F141) is generated rarely
+                    let pre = rng.chance(1, 12);
+                    (0..k).map(|_| gen_shape(rng, max, pre)).collect::<Vec<_>>().join(";")
+                } else {
+                    gen_shape(rng, max, true)
+                };
+                lines.push(format!("recv {pn} {kind} {shapes}"));
+                // conservative bookkeeping of what may remain
+                let d = 1 - p;
+                let cap: usize = shapes
+                    .split(';')
+                    .map(|s| s[1..].split(':').next().unwrap().parse::<usize>().unwrap())
+                    .sum();
+                pend[d] = pend[d].saturating_sub(cap);
+            }
+        }
+    }
+    Case { name: format!("lock-{tp}-{drv}-{idx}"), lines }
+}
+
+fn generate(tier: &str, rng: &mut Rng) -> Vec<Case> {
+    let scale = if tier == "thorough" { 8 } else { 1 };
+    let mut cases = vec![];
+    let mut idx = 0;
+    for _ in 0..(120 * scale) {
+        for tp in ["tcp", "unix"] {
+            for drv in ["uring", "poll"] {
+                idx += 1;
+                cases.push(gen_lock_stream(&mut rng.fork(), idx, tp, drv));
+            }
+        }
+    }
+    cases
 }
 
 fn main() {
-    for ring in [true, false] {
-        let rt = rt(ring);
-        println!("driver {:?}", rt.driver_type());
-        rt.block_on(async {
-            let a = UdpSocket::bind("127.0.0.1:0").await.unwrap();
-            let b = UdpSocket::bind("127.0.0.1:0").await.unwrap();
-            let aa = a.local_addr().unwrap();
-            let ba = b.local_addr().unwrap();
-            a.send_to(b"hello".to_vec(), ba).await.0.unwrap();
-            {
-                let mut s = std::pin::pin!(b.recv_from_multi());
-                let r = s.next().await.unwrap().unwrap();
-                println!("recv_from_multi data={:?} addr={:?} (expect {:?})", r.data(), r.addr().and_then(|a| a.as_socket()), aa);
-            }
-            a.send_to(b"world!".to_vec(), ba).await.0.unwrap();
-            {
-                let mut s = std::pin::pin!(b.recv_msg_multi(64));
-                let r = s.next().await.unwrap().unwrap();
-                println!("recv_msg_multi data={:?} addr={:?} flags={:?} anc={:?}", r.data(), r.addr().and_then(|a| a.as_socket()), r.flags(), r.ancillary());
-            }
-            a.send_to(b"third".to_vec(), ba).await.0.unwrap();
-            {
-                let mut s = std::pin::pin!(b.recv_multi(0));
-                let r = s.next().await.unwrap().unwrap();
-                println!("recv_multi data={:?}", &*r);
-            }
-            a.send_to(vec![7u8; 1000], ba).await.0.unwrap();
-            {
-                let r = b.recv_msg_managed(0, Vec::with_capacity(64)).await.unwrap().unwrap();
-                println!("recv_msg_managed len={} flags={:?} addr={:?}", r.0.len(), r.3, r.2);
-            }
-        });
-    }
+    run_harness(
+        generate,
+        exec,
+        "distinct by case text; non-trivial = at least one receive delivered bytes, a datagram, a connection or a stream token",
+    );
+}
+
+#[allow(dead_code)]
+fn _unused(_: UdpSocket, _: Rc<()>) {
+    let _ = unsafe { UdpSocket::from_raw_fd(-1) };
 }
